@@ -419,14 +419,10 @@ func (s *Server) Get(req *spb.GetRequest, stream spb.GRIBI_GetServer) error {
 	// defer a function to stop the goroutine and close all channels, since this will be called
 	// when we exit, then it will stop the goroutine that we started to do
 	// the get in the case that we exit due to some error.
-	defer func() {
-		// Non-blocking write to the stopCh, since if the goroutine has
-		// already returned then it won't be listening and we'll deadlock.
-		select {
-		case stopCh <- struct{}{}:
-		default:
-		}
-	}()
+	// Closing stopCh (rather than writing to it) releases the goroutine wherever
+	// it is: polling stopCh between entries, or blocked writing an entry to
+	// msgCh that nobody will read any more.
+	defer close(stopCh)
 
 	go s.doGet(req, msgCh, doneCh, stopCh, errCh)
 
